@@ -126,11 +126,12 @@ def srvPush (cfg : Conf) (s : St) (m : Move) : St :=
     | .ok q' => { s with srvPos := q' :: s.srvPos, srvMoves := m :: s.srvMoves }
     | .error _ => s
 
-/-- a move transmitted by the bot is accepted when it is the bot's turn on the server and the move is legal there -/
+/-- a move transmitted by the bot is accepted when the server's game is not over, it is the bot's turn there
+and the move is legal there -/
 def srvAccept (cfg : Conf) (s : St) (m : Move) : St :=
   match s.srvPos with
   | [] => s
-  | q :: _ => if q.toMove = cfg.color then srvPush cfg s m else s
+  | q :: _ => if q.gameOver.1 = false ∧ q.toMove = cfg.color then srvPush cfg s m else s
 
 def srvPop (s : St) : St :=
   match s.srvMoves with
